@@ -922,3 +922,53 @@ def escape_default_platform(ctx, rng, label='escape() with the platform argument
             bad += 1
             ctx.counterexample('glob.escape(%r) = %r: globmatch of the string itself is %r%s' % (s, a, ok, '; it also matches %r' % other if leak else ''), {'string': s, 'escaped': a})
     return _count(ctx, label, n, {'string': '//a*/b?/c'})
+
+
+def lazy_walk_tree_change(ctx, label='a lazy walk over a tree that changes between two results'):
+    """iglob is lazy: what a later pattern of the list (or a later run of the same Glob object) lists is the tree as it is
+    then - a directory that has meanwhile become a symlink is met by `**` but not traversed."""
+    import trees
+    from wcmatch import glob as Gm
+    n = 0
+    spec = [('real', 'd', None), ('real/x', 'f', None), ('real/sub', 'd', None), ('real/sub/z', 'f', None), ('target', 'd', None), ('target/t', 'f', None)]
+    for how in ('iglob over a list', 'iglob over SPLIT', 'Glob object run twice', 'iglob, bytes'):
+        for fl in (Gm.GLOBSTAR, Gm.GLOBSTAR | Gm.MARK, Gm.GLOBSTAR | Gm.NOUNIQUE):
+            n += 1
+            with trees.Tree(spec) as T:
+                listed = []
+                real_scandir = os.scandir
+
+                def spy(p='.'):
+                    listed.append(p)
+                    return real_scandir(p)
+
+                def swap():
+                    os.unlink(os.path.join(T.root, 'real', 'sub', 'z'))
+                    os.rmdir(os.path.join(T.root, 'real', 'sub'))
+                    os.symlink('../target', os.path.join(T.root, 'real', 'sub'))
+                os.scandir = spy
+                try:
+                    if how == 'Glob object run twice':
+                        g = Gm.Glob('**', flags=fl | Gm.NOUNIQUE, root_dir=T.root)
+                        list(g.glob())
+                        swap()
+                        del listed[:]
+                        rest = [x for x in g.glob()]
+                    else:
+                        cv = (lambda z: z.encode()) if how == 'iglob, bytes' else (lambda z: z)
+                        pats = cv('real/x|**') if how == 'iglob over SPLIT' else [cv('real/x'), cv('**')]
+                        it = Gm.iglob(pats, flags=fl | (Gm.SPLIT if how == 'iglob over SPLIT' else 0), root_dir=cv(T.root))
+                        first = next(it)
+                        swap()
+                        del listed[:]
+                        rest = [os.fsdecode(x) for x in it]
+                finally:
+                    os.scandir = real_scandir
+                through = [x for x in rest if x.rstrip('/').startswith('real/sub/')]
+                scanned_link = [p for p in listed if isinstance(p, (str, bytes)) and os.fsdecode(p).rstrip('/').endswith('real/sub')]
+                missing = [x for x in ('real/sub', 'target/t') if x not in [y.rstrip('/') for y in rest]]
+                if through or scanned_link or missing:
+                    ctx.counterexample('%s (%s): after `real/sub` was replaced by a symlink to `../target`, the remaining results are %r - %s' % (
+                        how, corr.flag_names(fl), rest, 'paths through the symlink: %r' % through if through else ('the symlink was listed with scandir' if scanned_link else 'missing: %r' % missing)),
+                        {'how': how, 'flags': corr.flag_names(fl), 'tree': [x[0] for x in spec], 'change': 'real/sub becomes a symlink to ../target after the first result'})
+    return _count(ctx, label, n, {'patterns': ['real/x', '**'], 'change': 'real/sub -> ../target after the first result'})
